@@ -18,7 +18,7 @@ RULE = ("cases: ordered pairs (top, bottom) of ACE records, bottom derived from 
         "members); answers are monotone in the skip set. Non-trivial: the library answered True for at "
         "least one skip list; distinct by canonical pair")
 ASSUMPTIONS = ["refsem packet semantics (flag keywords: any-of; established = ack|rst; ports 1..65535)",
-               "k <= 4 non-contiguous bits per address, <= 4 members per group"]
+               "k <= 4 non-contiguous bits per address (k = 7, 9 and, with a raised limit, 17 in rare directed classes), <= 4 members per group"]
 
 
 def judge(case) -> Verdict:
@@ -27,10 +27,20 @@ def judge(case) -> Verdict:
         raise Invalid()
     G.validate_rec(top, platform)
     G.validate_rec(bottom, platform)
+    kw = {}
+    if case.get("ncwb") is not None:
+        if not isinstance(case["ncwb"], int) or not 0 <= case["ncwb"] <= 18:
+            raise Invalid()
+        kw["max_ncwb"] = case["ncwb"]
+        # keep this class (and whatever the minimiser derives from it) cheap: one wide address, all others contiguous
+        ks = sorted(len(R.nc_bits(pr[1])) for rec in (top, bottom) for sd in ("src", "dst")
+                    for pr in (G.addr_members(rec[sd]) if rec[sd]["k"] == "group" else [G.addr_pair(rec[sd])]))
+        if ks and (ks[-1] > 17 or (len(ks) > 1 and ks[-2] > 0)):
+            raise Invalid()
     try:
         rt, rb = G.rec_rule(top), G.rec_rule(bottom)
-        t = A.build_ace(top, platform)
-        b = A.build_ace(bottom, platform)
+        t = A.build_ace(top, platform, **kw)
+        b = A.build_ace(bottom, platform, **kw)
     except (KeyError, IndexError, TypeError) as ex:
         raise Invalid() from ex
     v = Verdict()
@@ -72,6 +82,8 @@ def judge(case) -> Verdict:
         v.label("non-contiguous")
     if R.rule_is_empty(rb) or R.rule_is_empty(rt):
         v.label("empty-set-involved")
+    if kw:
+        v.label("raised-limit-17-bits")
     return v
 
 
@@ -85,6 +97,9 @@ def pair_st(draw, tier):
         top, bottom = bottom, top
     if draw(st.sampled_from(range(6))) == 0:
         top, bottom = draw(G.flag_focus(top, bottom, established=True))
+    if draw(st.sampled_from(range(7))) == 0:
+        # port sets equal or one port apart at an end of a run / of the port space, in every spelling
+        top, bottom = draw(G.port_focus(top, bottom, platform))
     if draw(st.sampled_from(range(8))) == 0:
         # one network on top, a group of several members below it (an outsider at any position decides)
         from checks.c13 import group_under_net
@@ -121,7 +136,36 @@ def pair_st(draw, tier):
         if rec.get("flags") and draw(st.sampled_from([True, False, False])):
             rec["logs"] = [draw(st.sampled_from(["log", "log-input"]))]
             rec["lf"] = True
-    return {"top": top, "bottom": bottom, "platform": platform}
+    case = {"top": top, "bottom": bottom, "platform": platform}
+    if draw(st.integers(0, 399)) == 257:  # (not 0: generators favour the ends of a range)
+        # more non-contiguous bits than the default limit (objects created with max_ncwb=17): 2^17 prefixes below,
+        # a prefix above that holds all of them, one half of them (either half) or everything. ~1 s per case: rare
+        side = draw(st.sampled_from(["src", "dst"]))
+        other = "dst" if side == "src" else "src"
+        shift = draw(st.integers(1, 4))
+        w = (((1 << 17) - 1) << shift) | ((1 << draw(st.integers(0, shift - 1))) - 1)
+        base = G.POOL_BASE & ~w & R.ALL1
+        wide = {"k": "wild", "b": base, "w": w}
+        if draw(st.sampled_from(range(3))) == 0:
+            wide = {"k": "group", "b": 0, "w": 0, "n": "G1", "m": [[base, w]]}
+        span = 17 + shift
+        pick = draw(st.sampled_from(["all", "lower-half", "upper-half", "any"]))
+        if pick == "any":
+            above = {"k": "any", "b": 0, "w": R.ALL1}
+        else:
+            bits = span if pick == "all" else span - 1
+            b2 = base | ((1 << (span - 1)) if pick == "upper-half" else 0)
+            above = G.native_addr((b2 & ~((1 << bits) - 1) & R.ALL1, (1 << bits) - 1), platform)
+        for rec in (top, bottom):
+            rec["sp"] = rec["dp"] = None
+            rec["proto"], rec["flags"] = 0, []
+        top[side], bottom[side] = above, wide
+        if top[other]["k"] == "group" or not R.is_contiguous(G.addr_pair(top[other])[1]):
+            top[other] = {"k": "any", "b": 0, "w": R.ALL1}
+        bottom[other] = dict(top[other])
+        bottom["action"] = top["action"]
+        case["ncwb"] = 17
+    return case
 
 
 # --------------------------------------------------------------------------------------- member edits
